@@ -98,6 +98,9 @@ def run(ctx):
                 elif args[:2] != ids[:2] and len(ids) == 2:
                     w1.fail('%s:wrapper-shape:parse_%s%s' % (API, g, suf), where(f),
                             '%s must pass the (text, defines) pair returned by %s to parse_%s_pp in that order; it passes %s' % (f['name'], pp_name, g, args))
+                elif len(args) >= 3 and args[2] in ('true', 'false'):
+                    w1.fail('%s:wrapper-shape:parse_%s%s' % (API, g, suf), where(f),
+                            '%s passes the constant %s as allow_incomplete to parse_%s_pp instead of its own argument' % (f['name'], args[2], g))
                 elif len(st) != 2:
                     w1.undecided('%s:wrapper-shape:parse_%s%s' % (API, g, suf), where(f), '%s has additional statements around preprocess / parse_%s_pp' % (f['name'], g))
             else:
@@ -321,31 +324,57 @@ def run(ctx):
                 w5.undecided('%s:get_origin' % API, where(go['get_origin']), 'get_origin looks up `%s`' % a0)
         else:
             w5.undecided('%s:get_origin' % API, where(go['get_origin']), 'get_origin: origin lookup not recognised')
-    # ---- W6: the file-reading function passes exactly the buffer it read to the string entry
+    # ---- W6: the file entry preprocesses exactly the buffer that was read (tri-state; the read may live in a helper)
     w6 = RuleResult('W6', 'the file entry preprocesses exactly the bytes it read from the file')
     nread = 0
-    for fl, mp, fn, im in sx.crate_fns(ctx.syn, 'sv-parser-pp'):
+    ppf = {fn['name']: (fl, fn) for fl, mp, fn, im in sx.crate_fns(ctx.syn, 'sv-parser-pp') if im is None}
+
+    def single_binding(fn, name):
+        lets = [n for n in sx.walk(fn['body']) if n.get('k') == 'let' and 'pat' in n and name in [x for x in sx.pat_idents(n['pat']) if x]]
+        return len(lets)
+
+    for name, (fl, fn) in sorted(ppf.items()):
         reads = [n for n in sx.walk(fn.get('body')) if n.get('k') == 'mcall' and n['m'] == 'read_to_string' and len(n['args']) == 1]
-        if not reads:
-            continue
-        if fn['name'] in ('testfile_contents',):
+        if not reads or fn['name'] in ('testfile_contents',):
             continue
         nread += 1
         buf = sq(sx.strip_ref(reads[0]['args'][0]))
-        calls = [n for n in sx.walk(fn['body']) if sx.is_call(n) and n['f']['p'].split('::')[-1] == 'preprocess_str']
-        lets = [n for n in sx.walk(fn['body']) if n.get('k') == 'let' and 'pat' in n and buf in [x for x in sx.pat_idents(n['pat']) if x]]
-        muts = [n for n in sx.walk(fn['body']) if n.get('k') == 'mcall' and sx.is_path(n['recv'], buf) and n['m'] not in ('as_str', 'len', 'is_empty', 'as_ref')]
-        w6.inst('read:%s' % fn['name'], {'fn': fn['name'], 'buffer': buf, 'bindings_of_buffer': len(lets), 'text_argument': sq(calls[0]['args'][0]) if calls else None})
         where_ = 'sv-parser-pp/%s:%s' % (fl, fn['l'])
-        if len(calls) != 1 or sq(calls[0]['args'][0]) not in ('&' + buf, buf + '.as_str()', '&*' + buf):
-            w6.fail('sv-parser-pp:%s:text-not-buffer' % fn['name'], where_,
-                    '%s reads the file into `%s` but hands `%s` to preprocess_str: file and string entry points would disagree' %
-                    (fn['name'], buf, sq(calls[0]['args'][0]) if calls else None))
-        if len(lets) != 1:
-            w6.fail('sv-parser-pp:%s:buffer-rebound' % fn['name'], where_,
+        muts = [n for n in sx.walk(fn['body']) if n.get('k') == 'mcall' and sx.is_path(n['recv'], buf) and
+                n['m'] not in ('as_str', 'len', 'is_empty', 'as_ref', 'clone')]
+        calls = [n for n in sx.walk(fn['body']) if sx.is_call(n) and n['f']['p'].split('::')[-1] == 'preprocess_str']
+        w6.inst('read:%s' % name, {'fn': name, 'buffer': buf, 'bindings_of_buffer': single_binding(fn, buf), 'calls_string_entry_itself': bool(calls)})
+        if single_binding(fn, buf) != 1:
+            w6.fail('sv-parser-pp:%s:buffer-rebound' % name, where_,
                     '%s binds `%s` %d times: the text handed on is not (only) what was read from the file (e.g. a stripped or '
-                    'normalised copy)' % (fn['name'], buf, len(lets)))
+                    'normalised copy)' % (name, buf, single_binding(fn, buf)))
         if muts:
-            w6.fail('sv-parser-pp:%s:buffer-modified' % fn['name'], where_, '%s modifies the read buffer (%s) before preprocessing it' % (fn['name'], [sq(x)[:40] for x in muts]))
+            w6.fail('sv-parser-pp:%s:buffer-modified' % name, where_, '%s modifies the read buffer (%s) before preprocessing it' % (name, [sq(x)[:40] for x in muts]))
+        if calls:
+            if len(calls) != 1 or sq(calls[0]['args'][0]) not in ('&' + buf, buf + '.as_str()', '&*' + buf):
+                w6.fail('sv-parser-pp:%s:text-not-buffer' % name, where_,
+                        '%s reads the file into `%s` but hands `%s` to preprocess_str: file and string entry points would disagree' %
+                        (name, buf, sq(calls[0]['args'][0]) if calls else None))
+            continue
+        # the read lives in a helper: it must return the buffer, and its caller must hand that value to preprocess_str
+        rets = [sq(n['args'][0]) for n in sx.walk(fn['body']) if sx.is_call(n, 'Ok') and len(n['args']) == 1 and not sq(n['args'][0]).startswith('(')]
+        if buf not in rets:
+            w6.undecided('sv-parser-pp:%s:reader-result' % name, where_, '%s reads into `%s` but does not visibly return it (returns %s)' % (name, buf, rets))
+            continue
+        for cname, (cfl, cfn) in sorted(ppf.items()):
+            users = [n for n in sx.walk(cfn['body']) if n.get('k') == 'let' and 'init' in n and
+                     any(sx.is_call(x, name) for x in sx.walk(n['init'])) and n['pat'].get('k') == 'ident']
+            for u in users:
+                v = u['pat']['n']
+                pcalls = [n for n in sx.walk(cfn['body']) if sx.is_call(n) and n['f']['p'].split('::')[-1] == 'preprocess_str']
+                w6.inst('reader-user:%s' % cname, {'fn': cname, 'holds_file_text_in': v, 'text_argument': sq(pcalls[0]['args'][0]) if pcalls else None})
+                cw = 'sv-parser-pp/%s:%s' % (cfl, cfn['l'])
+                if single_binding(cfn, v) != 1:
+                    w6.fail('sv-parser-pp:%s:buffer-rebound' % cname, cw, '%s binds `%s` %d times between reading and preprocessing' % (cname, v, single_binding(cfn, v)))
+                if len(pcalls) == 1 and sq(pcalls[0]['args'][0]) not in ('&' + v, v + '.as_str()', '&*' + v):
+                    w6.fail('sv-parser-pp:%s:text-not-buffer' % cname, cw,
+                            '%s reads the file into `%s` but hands `%s` to preprocess_str' % (cname, v, sq(pcalls[0]['args'][0])))
+                elif len(pcalls) != 1:
+                    w6.undecided('sv-parser-pp:%s:reader-user' % cname, cw, '%s: %d calls of preprocess_str' % (cname, len(pcalls)))
     w6.floor('file_reading_functions', nread, 1)
     return [w1, w2, w3, w4, w5, w6]
